@@ -43,7 +43,7 @@ def cexpr(e):
         return e
     if h == "enum":
         return ("var", e[1].split("::")[-1])
-    if h in ("cast", "narrow"):
+    if h in ("cast", "narrow", "widen"):
         return cexpr(e[3])
     if h in ("addr", "deref"):
         return cexpr(e[1])
